@@ -229,6 +229,9 @@ func (e *Exec) step(st *State, f *Frame, instr ssa.Instruction) bool {
 		if v, ok := st.conc[c.ID]; ok {
 			return e.jump(st, f, f.block.Succs[1-int(v)])
 		}
+		if v, ok := e.pinnedConst(st, c); ok {
+			return e.jump(st, f, f.block.Succs[1-int(v&1)])
+		}
 		st.instrs-- // the instruction is re-counted when the branch is taken
 		panic(&branchReq{cond: c})
 	case *ssa.Return:
@@ -330,6 +333,12 @@ func (e *Exec) indexCheck(st *State, idx *term.Term, it types.Type, n int) PathE
 		}
 		return PathElem{I: int(v)}
 	}
+	if v, ok := e.pinnedConst(st, ix); ok {
+		if int64(v) < 0 || int64(v) >= int64(n) {
+			e.goPanic(st, fmt.Sprintf("index out of range [%d] with length %d", int64(v), n))
+		}
+		return PathElem{I: int(v)}
+	}
 	inRange := e.ts.Cmp(term.OpUlt, ix, e.ts.Const(64, uint64(n)))
 	e.requireOrPanic(st, inRange, fmt.Sprintf("index out of range with length %d", n))
 	if n == 1 {
@@ -353,6 +362,12 @@ func (e *Exec) requireOrPanic(st *State, cond *term.Term, msg string) {
 	e.needVerified(st)
 	if v, known := st.pcKnown(cond, e.ts.Not(cond)); known && v {
 		return
+	}
+	if v, ok := e.pinnedConst(st, cond); ok {
+		if v != 0 {
+			return
+		}
+		e.goPanic(st, msg)
 	}
 	key := feasKey{st.pc, cond.ID}
 	res, ok := e.feasCache[key]
